@@ -777,6 +777,34 @@ var SchemaFaults = []Fault{
 		}
 		return false
 	}},
+	{"interface-field-list-depth-differs", func(r *Rng, s *GSchema) bool {
+		// the implementer wraps or unwraps one list level: [T] for T, or T for [T]
+		ot, it := firstImplementer(s)
+		if it == nil || ot == nil {
+			return false
+		}
+		for _, f := range it.Fields {
+			for i := range ot.Fields {
+				if ot.Fields[i].Name != f.Name {
+					continue
+				}
+				ft := ot.Fields[i].Type
+				// keep the outer nullability, so that only the list structure differs
+				bang := ""
+				if strings.HasSuffix(ft, "!") {
+					bang = "!"
+				}
+				inner := strings.TrimSuffix(ft, "!")
+				if strings.HasPrefix(inner, "[") && r.Bool() {
+					ot.Fields[i].Type = strings.TrimSuffix(inner[1:len(inner)-1], "!") + bang
+				} else {
+					ot.Fields[i].Type = "[" + inner + "]" + bang
+				}
+				return true
+			}
+		}
+		return false
+	}},
 	{"interface-argument-missing", func(r *Rng, s *GSchema) bool {
 		t, it := firstImplementer(s)
 		if t == nil {
